@@ -389,11 +389,15 @@ func execute(c *core.Ctx, r *request, nruns int) {
 // "deterministic for a given seed": a command that ignored --seed and used a constant would also be deterministic)
 func seedUse(c *core.Ctx, in *inputs) {
 	random := map[string]bool{"shuffletips": true, "gen-yule": true, "gen-uniform": true, "prune-random": true, "sample": true,
-		"brlen-setrand": true, "support-setrand": true, "rotate-rand": true, "asr-protein-random": true}
+		"brlen-setrand": true, "support-setrand": true, "rotate-rand": true}
 	var res []string
 	for _, r := range cliTemplates(c, in) {
 		if !random[r.tpl] {
 			continue
+		}
+		if r.files["tree"] == in.tree {
+			// a star tree has no inner branch to give a support to, nothing to rotate …: the resolved rooted tree instead
+			r.files = map[string]string{"tree": in.rooted}
 		}
 		a := runCLIOnce(c, r, 0)
 		r2 := *r
